@@ -81,8 +81,12 @@ Proof. induction a as [|x a IH]; cbn; [reflexivity|]. rewrite N.eqb_refl. exact 
 Lemma addr_eqb_Addr a k : addr_eqb a (Addr k) = true -> a = Addr k.
 Proof. destruct a; cbn; intros H; try discriminate. apply N.eqb_eq in H; subst; reflexivity. Qed.
 
+Lemma validate_p_default s sh d : validate_p 0 s sh d = validate s sh d.
+Proof. reflexivity. Qed.
+
 Section P.
   Variable exec : root -> N -> Z -> list tx -> root.
+  Variable prov : N.
   Variable g : config.
   Variable k : key.
 
@@ -91,12 +95,12 @@ Section P.
     s_chain s = g_chain g /\ s_height s + 1 = n /\ s_time s = t /\ s_app s = r.
 
   Lemma block_ok_validate prev n t r s sh d :
-    block_okb g k prev n t r (sh, d) = true -> st_ok s n t r ->
-    validate s sh d = true /\ h_height (sh_hdr sh) = n /\
+    block_okb_p prov g k prev n t r (sh, d) = true -> st_ok s n t r ->
+    validate_p prov s sh d = true /\ h_height (sh_hdr sh) = n /\
     d_txs d = h_data (sh_hdr sh) /\
     d_meta d = Some {| m_chain := h_chain (sh_hdr sh); m_height := h_height (sh_hdr sh); m_time := h_time (sh_hdr sh) |}.
   Proof.
-    unfold block_okb, st_ok. intros H (Hc & Hh & Ht & Ha).
+    unfold block_okb_p, st_ok. intros H (Hc & Hh & Ht & Ha).
     repeat (apply andb_true_iff in H as [H ?]).
     destruct (d_meta d) as [m|] eqn:Hm; [|discriminate].
     destruct (sg_pub (sh_signer sh)) as [[k']|] eqn:Hp; [|discriminate].
@@ -110,7 +114,7 @@ Section P.
     match goal with X : (t <=? _)%Z = true |- _ => apply Z.leb_le in X; rename X into Htime end.
     subst k'.
     split; [|split; [assumption|split; [assumption|]]].
-    - unfold validate, validate_basic, validate_pair.
+    - unfold validate_p, validate_basic_p, validate_pair.
       rewrite Hprop, Hsa, Hp, Hm, Hv. cbn [addr_eqb negb key_address].
       rewrite !N.eqb_refl.
       destruct (sh_sig sh); try discriminate Hv.
@@ -151,14 +155,14 @@ Section P.
 
   (* the j-th block of a valid chain validates against the state after the first j blocks *)
   Lemma chain_nth prev n t r s C j b :
-    chain_fromb exec g k prev n t r C = true -> st_ok s n t r -> nth_error C j = Some b ->
+    chain_fromb_p exec prov g k prev n t r C = true -> st_ok s n t r -> nth_error C j = Some b ->
     exists prev' t' r',
-      block_okb g k prev' (n + N.of_nat j) t' r' b = true /\ st_ok (state_after exec s C j) (n + N.of_nat j) t' r'.
+      block_okb_p prov g k prev' (n + N.of_nat j) t' r' b = true /\ st_ok (state_after exec s C j) (n + N.of_nat j) t' r'.
   Proof.
     revert prev n t r s j; induction C as [|[sh d] C IH]; intros prev n t r s [|j] Hc Hs Hn; cbn in Hn; try discriminate.
-    - inversion Hn; subst. cbn [chain_fromb] in Hc. apply andb_true_iff in Hc as [Hb _].
+    - inversion Hn; subst. cbn [chain_fromb_p] in Hc. apply andb_true_iff in Hc as [Hb _].
       exists prev, t, r. replace (n + N.of_nat 0) with n by lia. split; [exact Hb|exact Hs].
-    - cbn [chain_fromb] in Hc. apply andb_true_iff in Hc as [Hb Hc]. cbn [fst snd] in Hc.
+    - cbn [chain_fromb_p] in Hc. apply andb_true_iff in Hc as [Hb Hc]. cbn [fst snd] in Hc.
       destruct (block_ok_validate _ _ _ _ _ _ _ Hb Hs) as (_ & Hh & _ & _).
       cbn [state_after].
       specialize (IH _ _ _ _ (next_state s (sh_hdr sh) (exec (s_app s) (h_height (sh_hdr sh)) (h_time (sh_hdr sh)) (d_txs d))) j Hc).
@@ -186,10 +190,11 @@ Qed.
 (* ---- the invariants ------------------------------------------------------------------------------ *)
 Section Safety.
   Variable exec : root -> N -> Z -> list tx -> root.
+  Variable prov : N.
   Variable g : config.
   Variable k : key.
   Variable C : list block.
-  Hypothesis HV : ChainValid exec g k C.
+  Hypothesis HV : ChainValidP exec prov g k C.
 
   Notation s0 := (genesis_state g).
 
@@ -201,9 +206,9 @@ Section Safety.
 
   Lemma chain_at j b :
     nth_error C j = Some b ->
-    exists prev t r, block_okb g k prev (g_initial g + N.of_nat j) t r b = true /\
+    exists prev t r, block_okb_p prov g k prev (g_initial g + N.of_nat j) t r b = true /\
                      st_ok g (state_after exec s0 C j) (g_initial g + N.of_nat j) t r.
-  Proof. destruct HV as (_ & _ & Hc). intros H. exact (chain_nth exec g k _ _ _ _ _ _ _ _ Hc s0_ok H). Qed.
+  Proof. destruct HV as (_ & _ & Hc). intros H. exact (chain_nth exec prov g k _ _ _ _ _ _ _ _ Hc s0_ok H). Qed.
 
   Lemma chain_block i sh d :
     nth_error C i = Some (sh, d) ->
@@ -211,7 +216,7 @@ Section Safety.
     d_meta d = Some {| m_chain := h_chain (sh_hdr sh); m_height := h_height (sh_hdr sh); m_time := h_time (sh_hdr sh) |}.
   Proof.
     intros Hn. destruct (chain_at _ _ Hn) as (prev & t & r & Hok & Hst).
-    destruct (block_ok_validate exec g k _ _ _ _ _ _ _ Hok Hst) as (_ & H1 & H2 & H3). auto.
+    destruct (block_ok_validate exec prov g k _ _ _ _ _ _ _ Hok Hst) as (_ & H1 & H2 & H3). auto.
   Qed.
 
   Lemma empty_data_eq i sh d :
@@ -299,13 +304,13 @@ Section Safety.
 
   Lemma core_step m last j sh d :
     core m last j -> nth_error C j = Some (sh, d) ->
-    validate last sh d = true /\
+    validate_p prov last sh d = true /\
     core (apply_writes m (block_writes m (next_of exec last (sh, d)) sh d)) (next_of exec last (sh, d)) (S j).
   Proof.
     intros (Hj & Hh & Hb & Hl & Hs & Hs0) Hn. cbn [n_disk n_last] in *. pose proof init_pos as Hi.
     destruct (chain_at _ _ Hn) as (prev & t & r & Hok & Hst).
     rewrite <- Hl in Hst.
-    destruct (block_ok_validate exec g k _ _ _ _ _ _ _ Hok Hst) as (Hval & Hhh & _ & _).
+    destruct (block_ok_validate exec prov g k _ _ _ _ _ _ _ Hok Hst) as (Hval & Hhh & _ & _).
     split; [exact Hval|].
     assert (Hlt : (j < length C)%nat) by (apply nth_error_Some; congruence).
     unfold core, synced_to; cbn [n_disk n_last].
@@ -357,31 +362,41 @@ Section Safety.
         * apply K2. eapply S2; eauto.
   Qed.
 
-  (* trySyncNextBlock keeps the invariant, never fails on chain items, never runs out of fuel, stops
-     only when the header or the data of the next height is missing, and loses no cached item *)
-  Lemma try_sync_inv fuel : forall st j,
+  (* trySyncNextBlock keeps the invariant, never fails validation on chain items, never runs out of fuel,
+     returns an error only at a failed height read, stops otherwise only when the header or the data of the
+     next height is missing, and loses no cached item *)
+  Lemma try_sync_inv fuel : forall st j flt,
     core (l_disk st) (l_last st) j -> cache_ok (l_cache st) ->
     l_status st = Running ->
     (length (c_hdrs (l_cache st)) < fuel)%nat ->
     exists j', (j <= j')%nat /\
-      core (l_disk (try_sync exec fuel st)) (l_last (try_sync exec fuel st)) j' /\
-      cache_ok (l_cache (try_sync exec fuel st)) /\
+      core (l_disk (try_sync_f exec prov fuel flt st)) (l_last (try_sync_f exec prov fuel flt st)) j' /\
+      cache_ok (l_cache (try_sync_f exec prov fuel flt st)) /\
       (forall L, l_log st = L ++ calls_after exec s0 C j ->
-                 l_log (try_sync exec fuel st) = L ++ calls_after exec s0 C j') /\
-      l_status (try_sync exec fuel st) = Running /\
-      fixp (l_cache (try_sync exec fuel st)) (l_disk (try_sync exec fuel st)) /\
-      keeps (l_cache st) j (l_cache (try_sync exec fuel st)) j' /\
-      (Distinct -> seen_ok (l_cache st) j -> seen_ok (l_cache (try_sync exec fuel st)) j').
+                 l_log (try_sync_f exec prov fuel flt st) = L ++ calls_after exec s0 C j') /\
+      (l_status (try_sync_f exec prov fuel flt st) = Running \/
+       (l_status (try_sync_f exec prov fuel flt st) = Halted /\ flt <> None)) /\
+      (l_status (try_sync_f exec prov fuel flt st) = Running ->
+       fixp (l_cache (try_sync_f exec prov fuel flt st)) (l_disk (try_sync_f exec prov fuel flt st))) /\
+      keeps (l_cache st) j (l_cache (try_sync_f exec prov fuel flt st)) j' /\
+      (Distinct -> seen_ok (l_cache st) j -> seen_ok (l_cache (try_sync_f exec prov fuel flt st)) j').
   Proof.
-    induction fuel as [|f IH]; intros st j Hcore Hc Hst Hfuel; [lia|].
-    cbn [try_sync].
+    induction fuel as [|f IH]; intros st j flt Hcore Hc Hst Hfuel; [lia|].
+    cbn [try_sync_f].
+    destruct (fault_now flt) eqn:Hfn.
+    { (* the height read of this iteration fails *)
+      exists j. cbn [set_status l_disk l_last l_cache l_log l_status].
+      split; [lia|]. split; [exact Hcore|]. split; [exact Hc|]. split; [auto|].
+      split; [right; split; [reflexivity|destruct flt; discriminate]|].
+      split; [intros E; discriminate E|]. split; [apply keeps_refl|auto]. }
     assert (Hstop : fixp (l_cache st) (l_disk st) ->
       exists j', (j <= j')%nat /\ core (l_disk st) (l_last st) j' /\ cache_ok (l_cache st) /\
         (forall L, l_log st = L ++ calls_after exec s0 C j -> l_log st = L ++ calls_after exec s0 C j') /\
-        l_status st = Running /\ fixp (l_cache st) (l_disk st) /\ keeps (l_cache st) j (l_cache st) j' /\
+        (l_status st = Running \/ (l_status st = Halted /\ flt <> None)) /\
+        (l_status st = Running -> fixp (l_cache st) (l_disk st)) /\ keeps (l_cache st) j (l_cache st) j' /\
         (Distinct -> seen_ok (l_cache st) j -> seen_ok (l_cache st) j')).
     { intros Hf. exists j. split; [lia|]. split; [exact Hcore|]. split; [exact Hc|]. split; [auto|].
-      split; [exact Hst|]. split; [exact Hf|]. split; [apply keeps_refl|auto]. }
+      split; [left; exact Hst|]. split; [intros _; exact Hf|]. split; [apply keeps_refl|auto]. }
     destruct (lookup (c_hdrs (l_cache st)) (d_height (l_disk st) + 1)) as [sh|] eqn:L1;
       [|apply Hstop; left; exact L1].
     destruct (lookup (c_data (l_cache st)) (d_height (l_disk st) + 1)) as [d|] eqn:L2;
@@ -394,24 +409,29 @@ Section Safety.
     assert (Hnext : d_height (l_disk st) + 1 = g_initial g + N.of_nat j).
     { destruct Hcore as (_ & Hh & _). cbn [n_disk] in Hh. pose proof init_pos. lia. }
     rewrite Hnext in *.
-    match goal with |- context [try_sync exec f ?st'] =>
-      destruct (IH st' (S j)) as (j' & Hle & R1 & R2 & R3 & R4 & R5 & R6 & R7) end.
+    match goal with |- context [try_sync_f exec prov f (tick flt) ?st'] =>
+      destruct (IH st' (S j) (tick flt)) as (j' & Hle & R1 & R2 & R3 & R4 & R5 & R6 & R7) end.
     - exact Hcore'.
     - cbn. apply cache_ok_after; exact Hc.
     - reflexivity.
     - cbn. pose proof (remove_shrinks _ _ _ L1). lia.
     - cbn [l_cache l_log] in *.
-      exists j'. split; [lia|]. split; [exact R1|]. split; [exact R2|]. split; [|split; [exact R4|split; [exact R5|split]]].
+      exists j'. split; [lia|]. split; [exact R1|]. split; [exact R2|].
+      split; [|split; [|split; [exact R5|split]]].
       + intros L Hlog. apply R3.
         rewrite Hlog, (calls_after_S exec _ _ _ _ Hn), app_assoc. cbn [fst snd].
         destruct Hcore as (_ & _ & _ & Hl & _). cbn in Hl. rewrite Hl. reflexivity.
+      + destruct R4 as [R4|(R4 & Hne)]; [left; exact R4|right; split; [exact R4|]].
+        intros E; subst flt; apply Hne; reflexivity.
       + eapply keeps_trans; [apply keeps_after|exact R6].
       + intros HD Hs. apply R7; [exact HD|]. eapply seen_ok_after; eauto.
   Qed.
 
   (* ---- node level ------------------------------------------------------------------------------ *)
+  (* SyncLoop is running, or it returned after a failed height read inside trySyncNextBlock *)
+  Definition alive (s : status) : Prop := s = Running \/ s = Halted.
   Definition Inv (nd : node) (j : nat) : Prop :=
-    n_status nd = Running /\ core (n_disk nd) (n_last nd) j /\ cache_ok (n_cache nd) /\ cache_ok (n_files nd).
+    alive (n_status nd) /\ core (n_disk nd) (n_last nd) j /\ cache_ok (n_cache nd) /\ cache_ok (n_files nd).
 
   Lemma keeps_items c j c' :
     c_hdrs c' = c_hdrs c -> c_data c' = c_data c -> keeps c j c' j.
@@ -485,35 +505,50 @@ Section Safety.
 
   Notation calls j := (calls_after exec s0 C j).
 
-  Lemma loop_good nd j c mark :
+  (* the cache after the loop: the event is marked as seen only when trySyncNextBlock returned nil *)
+  Definition marked (s : status) (mark : cache -> cache) (c : cache) : cache :=
+    match s with Running => mark c | _ => c end.
+
+  Lemma keeps_marked s mark c j :
+    (forall c', c_hdrs (mark c') = c_hdrs c' /\ c_data (mark c') = c_data c') -> keeps c j (marked s mark c) j.
+  Proof.
+    intros Hm. destruct (Hm c) as (E1 & E2). destruct s; cbn [marked]; try apply keeps_refl.
+    apply keeps_items; assumption.
+  Qed.
+
+  Lemma loop_good nd j c mark flt :
     Inv nd j -> cache_ok c ->
     (forall c', c_hdrs (mark c') = c_hdrs c' /\ c_data (mark c') = c_data c') ->
-    exists j' c', (j <= j')%nat /\ Inv (fst (finish nd (start_loop exec nd c) mark)) j' /\
-      n_cache (fst (finish nd (start_loop exec nd c) mark)) = mark c' /\
-      n_files (fst (finish nd (start_loop exec nd c) mark)) = n_files nd /\
-      (forall L, n_log nd = L ++ calls j -> n_log (fst (finish nd (start_loop exec nd c) mark)) = L ++ calls j') /\
-      fixp c' (n_disk (fst (finish nd (start_loop exec nd c) mark))) /\
+    exists j' c', (j <= j')%nat /\ Inv (fst (finish nd (start_loop_f exec prov nd c flt) mark)) j' /\
+      n_cache (fst (finish nd (start_loop_f exec prov nd c flt) mark)) =
+        marked (n_status (fst (finish nd (start_loop_f exec prov nd c flt) mark))) mark c' /\
+      n_files (fst (finish nd (start_loop_f exec prov nd c flt) mark)) = n_files nd /\
+      (forall L, n_log nd = L ++ calls j -> n_log (fst (finish nd (start_loop_f exec prov nd c flt) mark)) = L ++ calls j') /\
+      (n_status (fst (finish nd (start_loop_f exec prov nd c flt) mark)) = Running ->
+       fixp c' (n_disk (fst (finish nd (start_loop_f exec prov nd c flt) mark)))) /\
+      (flt = None -> n_status (fst (finish nd (start_loop_f exec prov nd c flt) mark)) = Running) /\
       keeps c j c' j' /\ (Distinct -> seen_ok c j -> seen_ok c' j').
   Proof.
     intros (Hst & Hcore & Hc & Hf) Hc' Hmark.
-    unfold start_loop.
-    match goal with |- context [try_sync exec ?f ?st] =>
-      destruct (try_sync_inv f st j) as (j' & Hle & Hcore' & Hcc & Hlog' & Hst' & Hfix & Hk & Hs); auto;
-      set (R := try_sync exec f st) in * end.
+    unfold start_loop_f.
+    match goal with |- context [try_sync_f exec prov ?f flt ?st] =>
+      destruct (try_sync_inv f st j flt) as (j' & Hle & Hcore' & Hcc & Hlog' & Hst' & Hfix & Hk & Hs); auto;
+      set (R := try_sync_f exec prov f flt st) in * end.
     exists j', (l_cache R). split; [exact Hle|].
     unfold finish; cbn [fst n_status n_disk n_last n_cache n_files n_log].
-    rewrite Hst'. cbn [l_cache] in *.
-    split; [|split; [reflexivity|split; [reflexivity|split; [exact Hlog'|split; [exact Hfix|split; assumption]]]]].
-    split; [reflexivity|]. split; [exact Hcore'|]. split; [|exact Hf].
-    destruct Hcc as (H1 & H2). destruct (Hmark (l_cache R)) as (E1 & E2).
-    unfold cache_ok; cbn [n_cache]. rewrite E1, E2. split; assumption.
+    cbn [l_cache] in *.
+    split; [|split; [reflexivity|split; [reflexivity|split; [exact Hlog'|split; [exact Hfix|split; [|split; assumption]]]]]].
+    - split; [destruct Hst' as [E|(E & _)]; [left|right]; exact E|]. split; [exact Hcore'|]. split; [|exact Hf].
+      destruct Hcc as (H1 & H2). destruct (Hmark (l_cache R)) as (E1 & E2).
+      destruct (l_status R); unfold cache_ok; cbn [n_cache]; rewrite ?E1, ?E2; split; assumption.
+    - intros ->. destruct Hst' as [E|(_ & E)]; [exact E|exfalso; apply E; reflexivity].
   Qed.
 
   (* what one step guarantees *)
   Definition StepOK (nd : node) (j : nat) (nd' : node) (j' : nat) : Prop :=
     (j <= j')%nat /\ Inv nd' j' /\
     (forall L, n_log nd = L ++ calls j -> n_log nd' = L ++ calls j') /\
-    (fixp (n_cache nd) (n_disk nd) -> fixp (n_cache nd') (n_disk nd')) /\
+    (n_status nd' = Running -> fixp (n_cache nd) (n_disk nd) -> fixp (n_cache nd') (n_disk nd')) /\
     keeps (n_cache nd) j (n_cache nd') j' /\
     (Distinct -> seen_ok (n_cache nd) j -> seen_ok (n_cache nd') j').
 
@@ -541,24 +576,37 @@ Section Safety.
     apply N.leb_le in Hle. pose proof init_pos. lia.
   Qed.
 
-  Lemma process_good nd j e :
-    Inv nd j -> ev_in C e ->
-    exists j', StepOK nd j (fst (process exec nd e)) j' /\
-      n_files (fst (process exec nd e)) = n_files nd /\
-      (Distinct -> seen_ok (n_cache nd) j -> effect e (n_cache (fst (process exec nd e))) j').
+  Lemma flt_none flt : fault_now flt = false -> halting_flt flt = false -> flt = None.
+  Proof. destruct flt as [[|n]|]; cbn; intros; try discriminate; reflexivity. Qed.
+
+  Lemma process_good nd j e flt :
+    Inv nd j -> n_status nd = Running -> ev_in C e ->
+    exists j', StepOK nd j (fst (process_f exec prov nd e flt)) j' /\
+      n_files (fst (process_f exec prov nd e flt)) = n_files nd /\
+      (halting_flt flt = false -> n_status (fst (process_f exec prov nd e flt)) = Running) /\
+      (Distinct -> seen_ok (n_cache nd) j -> flt <> Some O ->
+       effect e (n_cache (fst (process_f exec prov nd e flt))) j').
   Proof.
-    intros HI Hev. pose proof HI as (Hst & Hcore & Hc & Hf).
-    unfold process. rewrite Hst.
+    intros HI Hst Hev. pose proof HI as (_ & Hcore & Hc & Hf).
+    assert (Hskip : (Distinct -> seen_ok (n_cache nd) j -> flt <> Some O -> effect e (n_cache nd) j) ->
+              exists j', StepOK nd j nd j' /\ n_files nd = n_files nd /\
+                (halting_flt flt = false -> n_status nd = Running) /\
+                (Distinct -> seen_ok (n_cache nd) j -> flt <> Some O -> effect e (n_cache nd) j')).
+    { intros He. exists j. split; [apply StepOK_refl; exact HI|]. split; [reflexivity|]. split; [intros _; exact Hst|exact He]. }
+    unfold process_f. rewrite Hst.
     destruct e as [sh da | d da].
     - destruct Hev as (d0 & Hin). apply In_nth_error in Hin as (i0 & H0).
       destruct (chain_block _ _ _ H0) as (Hh & Htx & Hm).
-      unfold on_header.
+      unfold on_header_f.
+      destruct (fault_now flt) eqn:Hfn.
+      { cbn [fst]. apply Hskip. intros _ _ Hne. exfalso. apply Hne.
+        destruct flt as [[|n]|]; try discriminate Hfn. reflexivity. }
       destruct ((h_height (sh_hdr sh) <=? d_height (n_disk nd)) || hseen (n_cache nd) (sh_hdr sh)) eqn:Hcond.
-      + exists j. cbn [fst]. split; [apply StepOK_refl; exact HI|]. split; [reflexivity|].
-        intros HD (S1 & _) i d Hn. apply orb_true_iff in Hcond as [Hle|Hs].
+      + cbn [fst]. apply Hskip.
+        intros HD (S1 & _) _ i d Hn. apply orb_true_iff in Hcond as [Hle|Hs].
         * pose proof (below_height _ _ _ _ _ _ Hcore Hn Hle). split; [left; lia|intros _; left; lia].
         * exact (S1 _ _ _ Hn Hs).
-      + rewrite Hh.
+      + clear Hskip. rewrite Hh.
         set (c2 := if is_empty_commitment (h_data (sh_hdr sh))
                    then set_data (set_hdr (n_cache nd) (g_initial g + N.of_nat i0) sh) (g_initial g + N.of_nat i0) (empty_data (sh_hdr sh))
                    else set_hdr (n_cache nd) (g_initial g + N.of_nat i0) sh).
@@ -576,18 +624,24 @@ Section Safety.
             split; [right; cbn; rewrite N.eqb_refl; reflexivity|].
             intros He'. rewrite Htx in He'. rewrite He' in He. discriminate He. }
         destruct Hc2 as (Hcok & Hk2 & Es1 & Es2 & Hvh & Hvd).
-        destruct (loop_good nd j c2 (fun c => add_hseen c (sh_hdr sh)) HI Hcok) as
-          (j' & c' & Hle & HI' & Ecache & Efiles & Hlog & Hfix & Hk & Hs); [intros c'; split; reflexivity|].
+        assert (Hmk : forall c', c_hdrs (add_hseen c' (sh_hdr sh)) = c_hdrs c' /\ c_data (add_hseen c' (sh_hdr sh)) = c_data c')
+          by (intros c'; split; reflexivity).
+        destruct (loop_good nd j c2 (fun c => add_hseen c (sh_hdr sh)) (tick flt) HI Hcok Hmk) as
+          (j' & c' & Hle & HI' & Ecache & Efiles & Hlog & Hfix & Hrun & Hk & Hs).
+        set (nd' := fst (finish nd (start_loop_f exec prov nd c2 (tick flt)) (fun c => add_hseen c (sh_hdr sh)))) in *.
         exists j'. unfold StepOK. rewrite Ecache.
         assert (Hvh' : hv_h c' j' i0 sh) by (destruct (Hk _ _ _ H0) as (K1 & _); auto).
         assert (Hvd' : d_txs d0 = [] -> hv_d c' j' i0 d0) by (destruct (Hk _ _ _ H0) as (_ & K2); auto).
-        assert (Hka : keeps c' j' (add_hseen c' (sh_hdr sh)) j') by (apply keeps_items; reflexivity).
-        split; [|split; [exact Efiles|]].
-        * split; [exact Hle|]. split; [exact HI'|]. split; [exact Hlog|]. split; [intros _; exact Hfix|].
+        pose proof (keeps_marked (n_status nd') _ c' j' Hmk) as Hka.
+        split; [|split; [exact Efiles|split]].
+        * split; [exact Hle|]. split; [exact HI'|]. split; [exact Hlog|].
+          split; [intros Hr _; rewrite Hr; exact (Hfix Hr)|].
           split; [eapply keeps_trans; [exact Hk2|eapply keeps_trans; [exact Hk|exact Hka]]|].
-          intros HD Hs0. eapply seen_ok_add_h; eauto. apply Hs; [exact HD|].
-          eapply seen_ok_keeps; eauto.
-        * intros _ _ i d Hn.
+          intros HD Hs0.
+          assert (Hs' : seen_ok c' j') by (apply Hs; [exact HD|]; eapply seen_ok_keeps; eauto).
+          destruct (n_status nd'); cbn [marked]; try exact Hs'. eapply seen_ok_add_h; eauto.
+        * intros Hh0. apply Hrun. rewrite (flt_none _ Hfn Hh0). reflexivity.
+        * intros _ _ _ i d Hn.
           destruct (nth_same_height _ _ _ _ _ _ Hn H0 eq_refl) as (-> & _ & ->).
           destruct (Hka _ _ _ H0) as (K1 & K2). split; auto.
     - destruct Hev as (sh0 & Hin). apply In_nth_error in Hin as (i0 & H0).
@@ -596,35 +650,42 @@ Section Safety.
       { intros i sh Hn Hne HD. assert (i = i0) by (apply (HD i i0 (sh, d) (sh0, d)); auto).
         split; [assumption|]. subst i.
         assert (E : Some (sh, d) = Some (sh0, d)) by (rewrite <- Hn; exact H0). inversion E. reflexivity. }
-      unfold on_data. rewrite Hm.
+      unfold on_data_f. rewrite Hm.
       destruct (d_txs d) as [|t0 tl] eqn:Ht in |- *.
-      { exists j. cbn [fst]. split; [apply StepOK_refl; exact HI|]. split; [reflexivity|].
-        intros _ _ i sh Hn Hne. exfalso; apply Hne; exact Ht. }
+      { cbn [fst]. apply Hskip. intros _ _ _ i sh Hn Hne. exfalso; apply Hne; exact Ht. }
       rewrite <- Ht. assert (Hne0 : d_txs d <> []) by (rewrite Ht; discriminate).
       destruct (dseen (n_cache nd) (d_txs d)) eqn:Hds.
-      { exists j. cbn [fst]. split; [apply StepOK_refl; exact HI|]. split; [reflexivity|].
-        intros HD (_ & S2) i sh Hn Hne. exact (S2 _ _ _ Hn Hne Hds). }
+      { cbn [fst]. apply Hskip. intros HD (_ & S2) _ i sh Hn Hne. exact (S2 _ _ _ Hn Hne Hds). }
+      destruct (fault_now flt) eqn:Hfn.
+      { cbn [fst]. apply Hskip. intros _ _ Hne. exfalso. apply Hne.
+        destruct flt as [[|n]|]; try discriminate Hfn. reflexivity. }
       cbn [m_height].
       destruct (h_height (sh_hdr sh0) <=? d_height (n_disk nd)) eqn:Hle0.
-      { exists j. cbn [fst]. split; [apply StepOK_refl; exact HI|]. split; [reflexivity|].
-        intros HD _ i sh Hn Hne. destruct (Huniq _ _ Hn Hne HD) as (-> & ->).
+      { cbn [fst]. apply Hskip. intros HD _ _ i sh Hn Hne. destruct (Huniq _ _ Hn Hne HD) as (-> & ->).
         left. eapply below_height; eauto. }
-      rewrite Hh.
+      clear Hskip. rewrite Hh.
       set (c2 := set_data (n_cache nd) (g_initial g + N.of_nat i0) d).
-      destruct (loop_good nd j c2 (fun c => add_dseen c (d_txs d)) HI) as
-        (j' & c' & Hle & HI' & Ecache & Efiles & Hlog & Hfix & Hk & Hs);
-        [eapply cache_ok_set_data; eauto|intros c'; split; reflexivity|].
+      assert (Hmk : forall c', c_hdrs (add_dseen c' (d_txs d)) = c_hdrs c' /\ c_data (add_dseen c' (d_txs d)) = c_data c')
+        by (intros c'; split; reflexivity).
+      assert (Hcok : cache_ok c2) by (eapply cache_ok_set_data; eauto).
+      destruct (loop_good nd j c2 (fun c => add_dseen c (d_txs d)) (tick flt) HI Hcok Hmk) as
+        (j' & c' & Hle & HI' & Ecache & Efiles & Hlog & Hfix & Hrun & Hk & Hs).
+      set (nd' := fst (finish nd (start_loop_f exec prov nd c2 (tick flt)) (fun c => add_dseen c (d_txs d)))) in *.
       exists j'. unfold StepOK. rewrite Ecache.
       assert (Hvd : hv_d c2 j i0 d) by (right; cbn; rewrite N.eqb_refl; reflexivity).
       assert (Hvd' : hv_d c' j' i0 d) by (destruct (Hk _ _ _ H0) as (_ & K2); auto).
-      assert (Hka : keeps c' j' (add_dseen c' (d_txs d)) j') by (apply keeps_items; reflexivity).
+      pose proof (keeps_marked (n_status nd') _ c' j' Hmk) as Hka.
       assert (Hk2 : keeps (n_cache nd) j c2 j) by (eapply keeps_set_data; eauto).
-      split; [|split; [exact Efiles|]].
-      * split; [exact Hle|]. split; [exact HI'|]. split; [exact Hlog|]. split; [intros _; exact Hfix|].
+      split; [|split; [exact Efiles|split]].
+      * split; [exact Hle|]. split; [exact HI'|]. split; [exact Hlog|].
+        split; [intros Hr _; rewrite Hr; exact (Hfix Hr)|].
         split; [eapply keeps_trans; [exact Hk2|eapply keeps_trans; [exact Hk|exact Hka]]|].
-        intros HD Hs0. eapply seen_ok_add_d; eauto. apply Hs; [exact HD|].
-        apply (seen_ok_keeps (n_cache nd) j c2 j); [reflexivity|reflexivity|exact Hk2|exact Hs0].
-      * intros HD _ i sh Hn Hne. destruct (Huniq _ _ Hn Hne HD) as (-> & ->).
+        intros HD Hs0.
+        assert (Hs' : seen_ok c' j').
+        { apply Hs; [exact HD|]. apply (seen_ok_keeps (n_cache nd) j c2 j); [reflexivity|reflexivity|exact Hk2|exact Hs0]. }
+        destruct (n_status nd'); cbn [marked]; try exact Hs'. eapply seen_ok_add_d; eauto.
+      * intros Hh0. apply Hrun. rewrite (flt_none _ Hfn Hh0). reflexivity.
+      * intros HD _ _ i sh Hn Hne. destruct (Huniq _ _ Hn Hne HD) as (-> & ->).
         destruct (Hka _ _ _ H0) as (_ & K2). auto.
   Qed.
 
@@ -736,11 +797,11 @@ Section Safety.
   Lemma try_sync_crash fuel : forall st j W,
     core (l_disk st) (l_last st) j -> cache_ok (l_cache st) -> l_status st = Running ->
     (length (c_hdrs (l_cache st)) < fuel)%nat -> l_ws st = W ->
-    exists ws, l_ws (try_sync exec fuel st) = W ++ ws /\
+    exists ws, l_ws (try_sync_f exec prov fuel None st) = W ++ ws /\
       forall q, pre_core j (crash_after q (l_disk st) ws).
   Proof.
     induction fuel as [|f IH]; intros st j W Hcore Hc Hst Hfuel HW; [lia|].
-    cbn [try_sync].
+    cbn [try_sync_f fault_now tick].
     assert (Hnone : exists ws, l_ws st = W ++ ws /\ forall q, pre_core j (crash_after q (l_disk st) ws)).
     { exists []. rewrite app_nil_r. split; [exact HW|]. intros q. unfold crash_after.
       rewrite firstn_nil. cbn. eapply core_pre; exact Hcore. }
@@ -756,7 +817,7 @@ Section Safety.
                   (exec (s_app (l_last st)) (h_height (sh_hdr sh)) (h_time (sh_hdr sh)) (d_txs d))) in *.
     pose proof (block_writes_eq _ _ _ _ _ new Hcore Hn) as Hbw.
     destruct (chain_block _ _ _ Hn) as (Hhh & _).
-    match goal with |- context [try_sync exec f ?st'] =>
+    match goal with |- context [try_sync_f exec prov f None ?st'] =>
       destruct (IH st' (S j) (W ++ block_writes (l_disk st) new sh d)) as (ws' & Hws' & Hboot') end.
     - exact Hcore'.
     - cbn. apply cache_ok_after; exact Hc.
@@ -775,24 +836,26 @@ Section Safety.
         apply (pre_core_mono j (S j)); [lia|]. exact Hboot'.
   Qed.
 
-  (* a new process on an image from which start-up recovers *)
+  (* a new process on an image from which start-up recovers: SyncLoop runs *)
   Lemma boot_good j0 m files log :
     pre_core j0 m -> cache_ok files ->
-    exists j', (j0 <= j')%nat /\ Inv (fst (boot exec g m files log)) j' /\
-      n_files (fst (boot exec g m files log)) = files /\
-      fixp (n_cache (fst (boot exec g m files log))) (n_disk (fst (boot exec g m files log))) /\
-      keeps files j0 (n_cache (fst (boot exec g m files log))) j' /\
-      (Distinct -> seen_ok files j0 -> seen_ok (n_cache (fst (boot exec g m files log))) j') /\
+    exists j', (j0 <= j')%nat /\ Inv (fst (boot_p exec prov g m files log)) j' /\
+      n_status (fst (boot_p exec prov g m files log)) = Running /\
+      n_files (fst (boot_p exec prov g m files log)) = files /\
+      fixp (n_cache (fst (boot_p exec prov g m files log))) (n_disk (fst (boot_p exec prov g m files log))) /\
+      keeps files j0 (n_cache (fst (boot_p exec prov g m files log))) j' /\
+      (Distinct -> seen_ok files j0 -> seen_ok (n_cache (fst (boot_p exec prov g m files log))) j') /\
       (forall s ws j, boot_writes g m = Some (s, ws) -> core (apply_writes m ws) s j ->
-         forall L, log = L ++ calls j -> n_log (fst (boot exec g m files log)) = L ++ calls j').
+         forall L, log = L ++ calls j -> n_log (fst (boot_p exec prov g m files log)) = L ++ calls j').
   Proof.
-    intros (s & ws & j & E & Hj & Hcore) Hf. unfold boot. rewrite E.
-    match goal with |- context [try_sync exec ?f ?st] =>
-      destruct (try_sync_inv f st j) as (j' & Hle & Hcore' & Hcc & Hlog' & Hst' & Hfix & Hk & Hs); auto;
-      set (R := try_sync exec f st) in * end.
+    intros (s & ws & j & E & Hj & Hcore) Hf. unfold boot_p. rewrite E.
+    match goal with |- context [try_sync_f exec prov ?f None ?st] =>
+      destruct (try_sync_inv f st j None) as (j' & Hle & Hcore' & Hcc & Hlog' & Hst' & Hfix & Hk & Hs); auto;
+      set (R := try_sync_f exec prov f None st) in * end.
+    assert (Hrun : l_status R = Running) by (destruct Hst' as [Hr|(_ & Hr)]; [exact Hr|exfalso; apply Hr; reflexivity]).
     cbn [fst n_status n_disk n_last n_cache n_files n_log l_cache l_log] in *.
-    exists j'. split; [lia|]. split; [split; [exact Hst'|split; [exact Hcore'|split; assumption]]|].
-    split; [reflexivity|]. split; [exact Hfix|].
+    exists j'. split; [lia|]. split; [split; [left; exact Hrun|split; [exact Hcore'|split; assumption]]|].
+    split; [exact Hrun|]. split; [reflexivity|]. split; [exact (Hfix Hrun)|].
     split; [eapply keeps_trans; [apply (keeps_mono files j0 j); exact Hj|exact Hk]|].
     split; [intros HD Hs0; apply Hs; [exact HD|]; eapply seen_ok_mono; eauto|].
     intros s2 ws2 j2 E2 Hc2 L HL. inversion E2; subst s2 ws2.
@@ -801,11 +864,11 @@ Section Safety.
 
   (* every prefix of the writes of a start is again an image from which start-up recovers *)
   Lemma boot_crash m last j files log q :
-    core m last j -> cache_ok files -> pre_core j (crash_after q m (snd (boot exec g m files log))).
+    core m last j -> cache_ok files -> pre_core j (crash_after q m (snd (boot_p exec prov g m files log))).
   Proof.
     intros Hcore Hf. destruct (boot_core _ _ _ Hcore) as (s & ws & E & Hc' & Hq).
-    unfold boot. rewrite E. cbn [snd].
-    match goal with |- context [try_sync exec ?f ?st] =>
+    unfold boot_p. rewrite E. cbn [snd].
+    match goal with |- context [try_sync_f exec prov ?f None ?st] =>
       destruct (try_sync_crash f st j []) as (tws & Htws & Hboot); auto end.
     cbn [app] in Htws. rewrite Htws. cbn [l_disk] in Hboot.
     unfold crash_after. unfold wr in *. rewrite firstn_app, apply_writes_app.
@@ -817,26 +880,26 @@ Section Safety.
 
   (* ---- every kind of step ---------------------------------------------------------------------- *)
   Definition Good (nd : node) (j : nat) : Prop :=
-    Inv nd j /\ fixp (n_cache nd) (n_disk nd) /\
+    Inv nd j /\ (n_status nd = Running -> fixp (n_cache nd) (n_disk nd)) /\
     (Distinct -> seen_ok (n_cache nd) j /\ seen_ok (n_files nd) j).
 
   Lemma process_pre nd j e q :
-    Inv nd j -> ev_in C e -> pre_core j (crash_after q (n_disk nd) (snd (process exec nd e))).
+    Inv nd j -> ev_in C e -> pre_core j (crash_after q (n_disk nd) (snd (process_f exec prov nd e None))).
   Proof.
     intros HI Hev. pose proof HI as (Hst & Hcore & Hc & Hf).
     assert (Hskip : forall ws, ws = [] -> pre_core j (crash_after q (n_disk nd) ws)).
     { intros ws ->. unfold crash_after. rewrite firstn_nil. cbn. eapply core_pre; exact Hcore. }
     assert (Hloop : forall c mark, cache_ok c ->
-              pre_core j (crash_after q (n_disk nd) (snd (finish nd (start_loop exec nd c) mark)))).
-    { intros c mark Hc'. unfold finish, start_loop. cbn [snd].
-      match goal with |- context [try_sync exec ?f ?st] =>
+              pre_core j (crash_after q (n_disk nd) (snd (finish nd (start_loop_f exec prov nd c None) mark)))).
+    { intros c mark Hc'. unfold finish, start_loop_f. cbn [snd].
+      match goal with |- context [try_sync_f exec prov ?f None ?st] =>
         destruct (try_sync_crash f st j []) as (ws & Hws & Hboot); auto end.
       cbn [app] in Hws. rewrite Hws. apply Hboot. }
-    unfold process. rewrite Hst.
+    unfold process_f. destruct (n_status nd); try (apply Hskip; reflexivity).
     destruct e as [sh da | d da].
     - destruct Hev as (d0 & Hin). apply In_nth_error in Hin as (i0 & H0).
       destruct (chain_block _ _ _ H0) as (Hh & Htx & Hm).
-      unfold on_header.
+      unfold on_header_f. cbn [fault_now tick].
       destruct ((h_height (sh_hdr sh) <=? d_height (n_disk nd)) || hseen (n_cache nd) (sh_hdr sh));
         [apply Hskip; reflexivity|].
       apply Hloop. rewrite Hh.
@@ -847,7 +910,7 @@ Section Safety.
       + eapply cache_ok_set_hdr; eauto.
     - destruct Hev as (sh0 & Hin). apply In_nth_error in Hin as (i0 & H0).
       destruct (chain_block _ _ _ H0) as (Hh & Htx & Hm).
-      unfold on_data. rewrite Hm.
+      unfold on_data_f. rewrite Hm. cbn [fault_now tick].
       destruct (d_txs d) eqn:Ht in |- *; [apply Hskip; reflexivity|].
       destruct (dseen (n_cache nd) _); [apply Hskip; reflexivity|].
       cbn [m_height].
@@ -856,7 +919,7 @@ Section Safety.
   Qed.
 
   Lemma Good_of nd j j' files0 :
-    Inv nd j' -> fixp (n_cache nd) (n_disk nd) ->
+    Inv nd j' -> (n_status nd = Running -> fixp (n_cache nd) (n_disk nd)) ->
     (Distinct -> seen_ok (n_cache nd) j') -> n_files nd = files0 -> (j <= j')%nat ->
     (Distinct -> seen_ok files0 j) -> Good nd j'.
   Proof.
@@ -864,42 +927,65 @@ Section Safety.
     intros HD. split; [auto|]. rewrite Ef. eapply seen_ok_mono; eauto.
   Qed.
 
-  (* any step at all keeps the node good and never lowers the applied prefix *)
+  Lemma restart_files_alive nd : alive (n_status nd) -> restart_files nd = n_cache nd.
+  Proof. unfold restart_files. intros [E|E]; rewrite E; reflexivity. Qed.
+
+  (* any step at all keeps the node good and never lowers the applied prefix; SyncLoop runs after it if the
+     step starts a new process, or it ran before and no height read inside trySyncNextBlock was made to fail *)
   Lemma step_good nd j i :
-    Good nd j -> item_in C i -> exists j', (j <= j')%nat /\ Good (step exec g nd i) j'.
+    Good nd j -> fitem_in C i ->
+    exists j', (j <= j')%nat /\ Good (fstep exec prov g nd i) j' /\
+      (boots i = true \/ (halting i = false /\ n_status nd = Running) -> n_status (fstep exec prov g nd i) = Running).
   Proof.
     intros (HI & Hfx & Hseen) Hin. pose proof HI as (Hst & Hcore & Hc & Hf).
-    destruct i as [e| |e q|q]; cbn [step].
-    - destruct (process_good nd j e HI Hin) as (j' & (Hle & HI' & _ & Hfx' & _ & Hs') & Ef & _).
-      exists j'. split; [exact Hle|].
-      eapply (Good_of _ j j'); eauto. intros HD. apply Hs'; [exact HD|]. apply Hseen; exact HD.
-      intros HD. apply Hseen; exact HD.
-    - unfold restart_files. rewrite Hst.
+    destruct i as [e flt| |e q|q]; cbn [fstep].
+    - destruct Hst as [Hr|Hh].
+      + destruct (process_good nd j e flt HI Hr Hin) as (j' & (Hle & HI' & _ & Hfx' & _ & Hs') & Ef & Hrun & _).
+        exists j'. split; [exact Hle|]. split.
+        * eapply (Good_of _ j j'); eauto. intros HD. apply Hs'; [exact HD|]. apply Hseen; exact HD.
+          intros HD. apply Hseen; exact HD.
+        * intros [Hb|(Hh0 & _)]; [discriminate Hb|]. apply Hrun. exact Hh0.
+      + unfold process_f. rewrite Hh. cbn [fst]. exists j. split; [lia|]. split; [split; [exact HI|split; assumption]|].
+        intros [Hb|(_ & Hr)]; [discriminate Hb|congruence].
+    - rewrite (restart_files_alive _ Hst).
       destruct (boot_good j (n_disk nd) (n_cache nd) (n_log nd) (core_pre _ _ _ Hcore) Hc)
-        as (j' & Hle & HI' & Ef & Hfx' & _ & Hs' & _).
-      exists j'. split; [exact Hle|].
+        as (j' & Hle & HI' & Hrun & Ef & Hfx' & _ & Hs' & _).
+      exists j'. split; [exact Hle|]. split; [|intros _; exact Hrun].
       eapply (Good_of _ j j'); eauto. intros HD. apply Hs'; [exact HD|]. apply Hseen; exact HD.
       intros HD. apply Hseen; exact HD.
     - destruct (boot_good j _ (n_files nd) (n_log nd) (process_pre nd j e q HI Hin) Hf)
-        as (j' & Hle & HI' & Ef & Hfx' & _ & Hs' & _).
-      exists j'. split; [exact Hle|].
+        as (j' & Hle & HI' & Hrun & Ef & Hfx' & _ & Hs' & _).
+      exists j'. split; [exact Hle|]. split; [|intros _; exact Hrun].
       eapply (Good_of _ j j'); eauto. intros HD. apply Hs'; [exact HD|]. apply Hseen; exact HD.
       intros HD. apply Hseen; exact HD.
     - destruct (boot_good j _ (n_files nd) (n_log nd) (boot_crash _ _ _ (n_files nd) (n_log nd) q Hcore Hf) Hf)
-        as (j' & Hle & HI' & Ef & Hfx' & _ & Hs' & _).
-      exists j'. split; [exact Hle|].
+        as (j' & Hle & HI' & Hrun & Ef & Hfx' & _ & Hs' & _).
+      exists j'. split; [exact Hle|]. split; [|intros _; exact Hrun].
       eapply (Good_of _ j j'); eauto. intros HD. apply Hs'; [exact HD|]. apply Hseen; exact HD.
       intros HD. apply Hseen; exact HD.
   Qed.
 
-  Lemma run_good h : forall nd j,
-    Good nd j -> Forall (item_in C) h -> exists j', (j <= j')%nat /\ Good (run_from exec g nd h) j'.
+  Lemma live_step (b : bool) i nd nd' :
+    (b = true -> n_status nd = Running) ->
+    (boots i = true \/ (halting i = false /\ n_status nd = Running) -> n_status nd' = Running) ->
+    (if boots i then true else if halting i then false else b) = true -> n_status nd' = Running.
   Proof.
-    induction h as [|i r IH]; intros nd j HG Hall.
-    - exists j. split; [lia|exact HG].
+    intros Hb Hs. destruct (boots i); [intros _; apply Hs; left; reflexivity|].
+    destruct (halting i); [discriminate|]. intros E. apply Hs. right. split; [reflexivity|apply Hb; exact E].
+  Qed.
+
+  Lemma run_good h : forall nd j b,
+    Good nd j -> (b = true -> n_status nd = Running) -> Forall (fitem_in C) h ->
+    exists j', (j <= j')%nat /\ Good (frun_from exec prov g nd h) j' /\
+      (live_after b h = true -> n_status (frun_from exec prov g nd h) = Running).
+  Proof.
+    induction h as [|i r IH]; intros nd j b HG Hb Hall.
+    - exists j. split; [lia|]. split; [exact HG|exact Hb].
     - inversion Hall as [|? ? Hi Hr]; subst.
-      destruct (step_good nd j i HG Hi) as (j1 & Hle1 & HG1).
-      destruct (IH _ _ HG1 Hr) as (j2 & Hle2 & HG2). exists j2. split; [lia|exact HG2].
+      destruct (step_good nd j i HG Hi) as (j1 & Hle1 & HG1 & Hs1).
+      destruct (IH _ _ (if boots i then true else if halting i then false else b) HG1 (live_step b i _ _ Hb Hs1) Hr)
+        as (j2 & Hle2 & HG2 & Hs2).
+      exists j2. split; [lia|]. split; [exact HG2|exact Hs2].
   Qed.
 
   Lemma boot_empty :
@@ -915,18 +1001,18 @@ Section Safety.
   Lemma seen_ok_empty j : seen_ok empty_cache j.
   Proof. split; intros; discriminate. Qed.
 
-  Lemma init_good : Good (init exec g) O /\ n_log (init exec g) = [].
+  Lemma init_good : Good (finit exec prov g) O /\ n_log (finit exec prov g) = [] /\ n_status (finit exec prov g) = Running.
   Proof.
     destruct boot_empty as (ws & E & Hc0).
     assert (Hpre : pre_core O []) by (exists s0, ws, O; auto).
-    unfold init.
+    unfold finit.
     destruct (boot_good O [] empty_cache [] Hpre cache_ok_empty)
-      as (j' & _ & HI & Ef & Hfx & _ & Hs & Hlog).
+      as (j' & _ & HI & Hrun & Ef & Hfx & _ & Hs & Hlog).
     assert (j' = O).
-    { destruct HI as (_ & Hcj & _). revert Hcj. unfold boot. rewrite E.
-      cbn [try_sync empty_cache c_hdrs length lookup fst n_disk n_last l_disk l_last].
+    { destruct HI as (_ & Hcj & _). revert Hcj. unfold boot_p. rewrite E.
+      cbn [try_sync_f fault_now empty_cache c_hdrs length lookup fst n_disk n_last l_disk l_last].
       intros Hcj. exact (core_unique _ _ _ _ _ Hcj Hc0). }
-    subst j'. split.
+    subst j'. split; [|split; [|exact Hrun]].
     - eapply (Good_of _ O O); eauto. intros HD. apply Hs; [exact HD|apply seen_ok_empty].
       intros _. apply seen_ok_empty.
     - rewrite (Hlog s0 ws O E Hc0 []); destruct C; reflexivity.
@@ -934,56 +1020,71 @@ Section Safety.
 
   (* ---- clean histories: log and effects of the delivered events ---------------------------------- *)
   Lemma step_clean nd j i :
-    Good nd j -> item_in C i -> is_clean i = true ->
-    exists j', (j <= j')%nat /\ Good (step exec g nd i) j' /\
-      (forall L, n_log nd = L ++ calls j -> n_log (step exec g nd i) = L ++ calls j') /\
-      keeps (n_cache nd) j (n_cache (step exec g nd i)) j' /\
-      (Distinct -> match i with IEv e => effect e (n_cache (step exec g nd i)) j' | _ => True end).
+    Good nd j -> fitem_in C i -> fclean i = true ->
+    exists j', (j <= j')%nat /\ Good (fstep exec prov g nd i) j' /\
+      (boots i = true \/ (halting i = false /\ n_status nd = Running) -> n_status (fstep exec prov g nd i) = Running) /\
+      (forall L, n_log nd = L ++ calls j -> n_log (fstep exec prov g nd i) = L ++ calls j') /\
+      keeps (n_cache nd) j (n_cache (fstep exec prov g nd i)) j' /\
+      (Distinct -> match i with
+                   | FEv e flt => n_status nd = Running -> flt <> Some O -> effect e (n_cache (fstep exec prov g nd i)) j'
+                   | _ => True end).
   Proof.
     intros (HI & Hfx & Hseen) Hin Hcl. pose proof HI as (Hst & Hcore & Hc & Hf).
-    destruct i as [e| |e q|q]; try discriminate Hcl; cbn [step].
-    - destruct (process_good nd j e HI Hin) as (j' & (Hle & HI' & Hlog & Hfx' & Hk & Hs') & Ef & Heff).
-      exists j'. split; [exact Hle|]. split; [|split; [exact Hlog|split; [exact Hk|]]].
-      + eapply (Good_of _ j j'); eauto. intros HD. apply Hs'; [exact HD|]. apply Hseen; exact HD.
-        intros HD. apply Hseen; exact HD.
-      + intros HD. apply Heff; [exact HD|]. apply Hseen; exact HD.
-    - unfold restart_files. rewrite Hst.
+    destruct i as [e flt| |e q|q]; try discriminate Hcl; cbn [fstep].
+    - destruct Hst as [Hr|Hh].
+      + destruct (process_good nd j e flt HI Hr Hin) as (j' & (Hle & HI' & Hlog & Hfx' & Hk & Hs') & Ef & Hrun & Heff).
+        exists j'. split; [exact Hle|]. split; [|split; [|split; [exact Hlog|split; [exact Hk|]]]].
+        * eapply (Good_of _ j j'); eauto. intros HD. apply Hs'; [exact HD|]. apply Hseen; exact HD.
+          intros HD. apply Hseen; exact HD.
+        * intros [Hb|(Hh0 & _)]; [discriminate Hb|]. apply Hrun. exact Hh0.
+        * intros HD _ Hne. apply Heff; [exact HD| |exact Hne]. apply Hseen; exact HD.
+      + unfold process_f. rewrite Hh. cbn [fst]. exists j. split; [lia|].
+        split; [split; [exact HI|split; assumption]|].
+        split; [intros [Hb|(_ & Hr)]; [discriminate Hb|congruence]|].
+        split; [auto|]. split; [apply keeps_refl|]. intros _ Hr. congruence.
+    - rewrite (restart_files_alive _ Hst).
       destruct (boot_good j (n_disk nd) (n_cache nd) (n_log nd) (core_pre _ _ _ Hcore) Hc)
-        as (j' & Hle & HI' & Ef & Hfx' & Hk & Hs' & Hlog).
-      exists j'. split; [exact Hle|]. split; [|split; [|split; [exact Hk|auto]]].
+        as (j' & Hle & HI' & Hrun & Ef & Hfx' & Hk & Hs' & Hlog).
+      exists j'. split; [exact Hle|]. split; [|split; [intros _; exact Hrun|split; [|split; [exact Hk|auto]]]].
       + eapply (Good_of _ j j'); eauto. intros HD. apply Hs'; [exact HD|]. apply Hseen; exact HD.
         intros HD. apply Hseen; exact HD.
       + destruct (boot_core _ _ _ Hcore) as (s & ws & E & Hc' & _). intros L HL. exact (Hlog s ws j E Hc' L HL).
   Qed.
 
-  Lemma run_clean h : forall nd j,
-    Good nd j -> Forall (item_in C) h -> forallb is_clean h = true ->
-    exists j', (j <= j')%nat /\ Good (run_from exec g nd h) j' /\
-      (forall L, n_log nd = L ++ calls j -> n_log (run_from exec g nd h) = L ++ calls j') /\
-      keeps (n_cache nd) j (n_cache (run_from exec g nd h)) j' /\
-      (Distinct -> forall e, In (IEv e) h -> effect e (n_cache (run_from exec g nd h)) j').
+  Lemma run_clean h : forall nd j b,
+    Good nd j -> (b = true -> n_status nd = Running) -> Forall (fitem_in C) h -> forallb fclean h = true ->
+    exists j', (j <= j')%nat /\ Good (frun_from exec prov g nd h) j' /\
+      (live_after b h = true -> n_status (frun_from exec prov g nd h) = Running) /\
+      (forall L, n_log nd = L ++ calls j -> n_log (frun_from exec prov g nd h) = L ++ calls j') /\
+      keeps (n_cache nd) j (n_cache (frun_from exec prov g nd h)) j' /\
+      (Distinct -> forall p e flt, nth_error h p = Some (FEv e flt) -> flt <> Some O ->
+         n_status (frun_from exec prov g nd (firstn p h)) = Running ->
+         effect e (n_cache (frun_from exec prov g nd h)) j').
   Proof.
-    induction h as [|i r IH]; intros nd j HG Hall Hcl.
-    - exists j. cbn. split; [lia|]. split; [exact HG|]. split; [auto|]. split; [apply keeps_refl|]. intros _ e [].
+    induction h as [|i r IH]; intros nd j b HG Hb Hall Hcl.
+    - exists j. cbn. split; [lia|]. split; [exact HG|]. split; [exact Hb|]. split; [auto|]. split; [apply keeps_refl|].
+      intros _ [|p] e flt E; discriminate E.
     - inversion Hall as [|? ? Hi Hr]; subst. cbn [forallb] in Hcl. apply andb_true_iff in Hcl as [Hc1 Hc2].
-      destruct (step_clean nd j i HG Hi Hc1) as (j1 & Hle1 & HG1 & Hlog1 & Hk1 & He1).
-      destruct (IH _ _ HG1 Hr Hc2) as (j2 & Hle2 & HG2 & Hlog2 & Hk2 & He2).
-      exists j2. cbn [run_from fold_left]. split; [lia|]. split; [exact HG2|].
+      destruct (step_clean nd j i HG Hi Hc1) as (j1 & Hle1 & HG1 & Hs1 & Hlog1 & Hk1 & He1).
+      destruct (IH _ _ (if boots i then true else if halting i then false else b) HG1 (live_step b i _ _ Hb Hs1) Hr Hc2)
+        as (j2 & Hle2 & HG2 & Hs2 & Hlog2 & Hk2 & He2).
+      exists j2. cbn [frun_from fold_left live_after]. split; [lia|]. split; [exact HG2|]. split; [exact Hs2|].
       split; [intros L HL; apply Hlog2; apply Hlog1; exact HL|].
       split; [eapply keeps_trans; eauto|].
-      intros HD e [E|Hin].
-      + subst i. eapply effect_keeps; [exact Hk2|]. exact (He1 HD).
-      + exact (He2 HD e Hin).
+      intros HD [|p] e flt E Hne Hrun.
+      + cbn in E. inversion E; subst i. cbn in Hrun.
+        eapply effect_keeps; [exact Hk2|]. exact (He1 HD Hrun Hne).
+      + cbn [nth_error] in E. cbn [firstn fold_left] in Hrun. exact (He2 HD p e flt E Hne Hrun).
   Qed.
 
-  (* everything delivered (or already applied) up to m has been applied *)
+  (* everything delivered (or already applied) up to m has been applied, if SyncLoop runs *)
   Lemma progress_end nd j m :
-    Good nd j -> (m <= length C)%nat ->
+    Good nd j -> n_status nd = Running -> (m <= length C)%nat ->
     (forall i sh d, (i < m)%nat -> nth_error C i = Some (sh, d) ->
         hv_h (n_cache nd) j i sh /\ hv_d (n_cache nd) j i d) ->
     (m <= j)%nat.
   Proof.
-    intros ((_ & Hcore & _) & Hfx & _) Hm Hall.
+    intros ((_ & Hcore & _) & Hfx & _) Hrun Hm Hall. specialize (Hfx Hrun).
     destruct (Nat.le_gt_cases m j) as [|Hlt]; [assumption|exfalso].
     assert (Hj : (j < length C)%nat) by lia.
     apply nth_error_Some in Hj. destruct (nth_error C j) as [[sh d]|] eqn:Hn; [|congruence].
@@ -1019,17 +1120,221 @@ Proof.
   - f_equal. eapply IH; eauto.
 Qed.
 
-(* ---- C02: safety and monotonicity, all chains, all clean histories ------------------------------- *)
+(* ---- the node with the default provider and no read fault is the instance prov = 0, flt = None -------- *)
+Lemma try_sync_f_base exec fuel : forall st, try_sync_f exec 0 fuel None st = try_sync exec fuel st.
+Proof.
+  induction fuel as [|f IH]; intros st; cbn [try_sync_f try_sync fault_now tick]; [reflexivity|].
+  destruct (lookup (c_hdrs (l_cache st)) (d_height (l_disk st) + 1)) as [sh|]; [|reflexivity].
+  destruct (lookup (c_data (l_cache st)) (d_height (l_disk st) + 1)) as [d|]; [|reflexivity].
+  rewrite validate_p_default. destruct (validate (l_last st) sh d); [apply IH|reflexivity].
+Qed.
+
+Lemma process_f_base exec nd e : process_f exec 0 nd e None = process exec nd e.
+Proof.
+  unfold process_f, process. destruct (n_status nd); try reflexivity.
+  destruct e as [sh da|d da].
+  - unfold on_header_f, on_header, start_loop_f, start_loop. cbn [fault_now tick].
+    rewrite !try_sync_f_base. reflexivity.
+  - unfold on_data_f, on_data, start_loop_f, start_loop. cbn [fault_now tick].
+    destruct (d_txs d); [reflexivity|]. destruct (d_meta d); [|reflexivity].
+    rewrite !try_sync_f_base. reflexivity.
+Qed.
+
+Lemma boot_p_base exec g m files log : boot_p exec 0 g m files log = boot exec g m files log.
+Proof. unfold boot_p, boot. destruct (boot_writes g m) as [[s ws]|]; [|reflexivity]. rewrite !try_sync_f_base. reflexivity. Qed.
+
+Lemma fstep_lift exec g nd i : fstep exec 0 g nd (lift i) = step exec g nd i.
+Proof. destruct i; cbn [lift fstep step]; rewrite ?process_f_base, ?boot_p_base; reflexivity. Qed.
+
+Lemma frun_from_lift exec g h : forall nd, frun_from exec 0 g nd (map lift h) = run_from exec g nd h.
+Proof.
+  induction h as [|i r IH]; intros nd; [reflexivity|].
+  cbn [map frun_from run_from fold_left]. rewrite fstep_lift. apply IH.
+Qed.
+
+Lemma frun_lift exec g h : frun exec 0 g (map lift h) = run exec g h.
+Proof. unfold frun, run, finit, init. rewrite boot_p_base. apply frun_from_lift. Qed.
+
+Lemma chain_fromb_p0 exec g k C : forall prev n t r,
+  chain_fromb_p exec 0 g k prev n t r C = chain_fromb exec g k prev n t r C.
+Proof.
+  induction C as [|b C IH]; intros prev n t r; [reflexivity|].
+  cbn [chain_fromb_p chain_fromb]. rewrite IH. destruct b as [sh d]. reflexivity.
+Qed.
+
+Lemma ChainValid_P0 exec g k C : ChainValid exec g k C <-> ChainValidP exec 0 g k C.
+Proof. unfold ChainValid, ChainValidP. rewrite chain_fromb_p0. tauto. Qed.
+
+Lemma item_in_lift C h : Forall (item_in C) h -> Forall (fitem_in C) (map lift h).
+Proof. intros H. induction H as [|i r Hi _ IH]; cbn [map]; constructor; [destruct i; exact Hi|exact IH]. Qed.
+
+Lemma clean_lift h : forallb fclean (map lift h) = forallb is_clean h.
+Proof. induction h as [|i r IH]; [reflexivity|]. cbn [map forallb]. rewrite IH. destruct i; reflexivity. Qed.
+
+Lemma live_lift h : forall b, b = true -> live_after b (map lift h) = true.
+Proof.
+  induction h as [|i r IH]; intros b Hb; [exact Hb|]. cbn [map live_after]. apply IH.
+  destruct i; cbn [lift boots halting halting_flt]; [exact Hb|reflexivity|reflexivity|reflexivity].
+Qed.
+
+Lemma live_no_halting h : forall b, b = true -> forallb (fun i => negb (halting i)) h = true -> live_after b h = true.
+Proof.
+  induction h as [|i r IH]; intros b Hb Hn; [exact Hb|]. cbn [forallb] in Hn. apply andb_true_iff in Hn as [H1 H2].
+  cbn [live_after]. apply IH; [|exact H2]. destruct (boots i); [reflexivity|].
+  apply negb_true_iff in H1. rewrite H1. exact Hb.
+Qed.
+
+(* ---- C02 with any signature payload provider and store read faults: safety and monotonicity ------------ *)
+Theorem safety_f exec prov g k C h :
+  ChainValidP exec prov g k C -> Forall (fitem_in C) h -> forallb fclean h = true ->
+  (n_status (frun exec prov g h) = Running \/ n_status (frun exec prov g h) = Halted) /\
+  (live_after true h = true -> n_status (frun exec prov g h) = Running) /\
+  exists j, synced_to exec g C (frun exec prov g h) j /\
+            n_log (frun exec prov g h) = calls_after exec (genesis_state g) C j.
+Proof.
+  intros HV Hall Hcl. destruct (init_good exec prov g k C HV) as (HG & Hl & Hr).
+  destruct (run_clean exec prov g k C HV h _ O true HG (fun _ => Hr) Hall Hcl)
+    as (j & _ & ((Hst & Hcore & _) & _) & Hlive & Hlog & _).
+  split; [exact Hst|]. split; [exact Hlive|]. exists j. split; [apply (synced_core exec g C); exact Hcore|].
+  apply (Hlog []). rewrite Hl. destruct C; reflexivity.
+Qed.
+
+(* the applied prefix never shrinks — for every history, crashes and read faults included *)
+Theorem monotone_f exec prov g k C h1 h2 :
+  ChainValidP exec prov g k C -> Forall (fitem_in C) (h1 ++ h2) ->
+  exists j1 j2, (j1 <= j2)%nat /\ synced_to exec g C (frun exec prov g h1) j1 /\
+                synced_to exec g C (frun exec prov g (h1 ++ h2)) j2.
+Proof.
+  intros HV Hall. apply Forall_app in Hall as (Ha1 & Ha2).
+  destruct (init_good exec prov g k C HV) as (HG & _ & Hr).
+  destruct (run_good exec prov g k C HV h1 _ O true HG (fun _ => Hr) Ha1) as (j1 & _ & HG1 & _).
+  destruct (run_good exec prov g k C HV h2 _ j1 false HG1 ltac:(discriminate) Ha2) as (j2 & Hle & HG2 & _).
+  exists j1, j2. split; [exact Hle|].
+  unfold frun, frun_from in *. rewrite fold_left_app.
+  destruct HG1 as ((_ & Hk1 & _) & _). destruct HG2 as ((_ & Hk2 & _) & _).
+  split; apply (synced_core exec g C); assumption.
+Qed.
+
+(* recovery, all histories with crashes and read faults anywhere: a prefix of the chain; SyncLoop runs unless
+   a height read inside trySyncNextBlock was made to fail since the last start *)
+Theorem recovery_f exec prov g k C h :
+  ChainValidP exec prov g k C -> Forall (fitem_in C) h ->
+  (n_status (frun exec prov g h) = Running \/ n_status (frun exec prov g h) = Halted) /\
+  (live_after true h = true -> n_status (frun exec prov g h) = Running) /\
+  exists j, synced_to exec g C (frun exec prov g h) j.
+Proof.
+  intros HV Hall. destruct (init_good exec prov g k C HV) as (HG & _ & Hr).
+  destruct (run_good exec prov g k C HV h _ O true HG (fun _ => Hr) Hall) as (j & _ & ((Hst & Hcore & _) & _) & Hlive).
+  split; [exact Hst|]. split; [exact Hlive|]. exists j. apply (synced_core exec g C). exact Hcore.
+Qed.
+
+(* ---- completeness / progress after any past, with read faults ------------------------------------------ *)
+Theorem progress_f exec prov g k C h1 h2 m :
+  ChainValidP exec prov g k C -> Forall (fitem_in C) (h1 ++ h2) -> forallb fclean h2 = true ->
+  distinct_commitmentsb C = true -> (m <= length C)%nat ->
+  n_status (frun exec prov g (h1 ++ h2)) = Running ->
+  (forall i b, (i < m)%nat -> nth_error C i = Some b ->
+     g_initial g + N.of_nat i <= d_height (n_disk (frun exec prov g h1)) \/
+     delivered_live exec prov g h1 h2 (EvHeader (fst b))) ->
+  (forall i b, (i < m)%nat -> nth_error C i = Some b -> d_txs (snd b) <> [] ->
+     g_initial g + N.of_nat i <= d_height (n_disk (frun exec prov g h1)) \/
+     delivered_live exec prov g h1 h2 (EvData (snd b))) ->
+  g_initial g + N.of_nat m - 1 <= d_height (n_disk (frun exec prov g (h1 ++ h2))).
+Proof.
+  intros HV Hall Hcl HDb Hm Hrun Hhd Hdd. apply Forall_app in Hall as (Ha1 & Ha2).
+  pose proof (distinctb_Distinct C HDb) as HD.
+  destruct (init_good exec prov g k C HV) as (HG & _ & Hr).
+  destruct (run_good exec prov g k C HV h1 _ O true HG (fun _ => Hr) Ha1) as (j1 & _ & HG1 & _).
+  destruct (run_clean exec prov g k C HV h2 _ j1 false HG1 ltac:(discriminate) Ha2 Hcl)
+    as (j2 & Hle & HG2 & _ & _ & _ & Heff).
+  assert (Hlive : forall e, delivered_live exec prov g h1 h2 e -> exists da,
+            effect g C (e da) (n_cache (frun_from exec prov g (frun exec prov g h1) h2)) j2).
+  { intros e (p & da & flt & Hp & Hne & Hst). exists da. apply (Heff HD p (e da) flt Hp Hne).
+    unfold frun, frun_from in *. rewrite fold_left_app in Hst. exact Hst. }
+  unfold frun, frun_from in *. rewrite fold_left_app in *.
+  set (nd1 := fold_left (fstep exec prov g) h1 (finit exec prov g)) in *.
+  set (nd2 := fold_left (fstep exec prov g) h2 nd1) in *.
+  assert (Hh1 : d_height (n_disk nd1) = g_initial g + N.of_nat j1 - 1).
+  { destruct HG1 as ((_ & (_ & Hh & _) & _) & _). exact Hh. }
+  assert (Hh2 : d_height (n_disk nd2) = g_initial g + N.of_nat j2 - 1).
+  { destruct HG2 as ((_ & (_ & Hh & _) & _) & _). exact Hh. }
+  pose proof (init_pos exec prov g k C HV) as Hi.
+  assert (Hmj : (m <= j2)%nat).
+  { apply (progress_end exec g C nd2 j2 m HG2 Hrun Hm).
+    intros i sh d Hlt Hn.
+    assert (Hhv : hv_h g (n_cache nd2) j2 i sh /\ (d_txs d = [] -> hv_d g (n_cache nd2) j2 i d)).
+    { destruct (Hhd i (sh, d) Hlt Hn) as [Hap|Hdl].
+      - split; [left; lia|intros _; left; lia].
+      - destruct (Hlive _ Hdl) as (da & He). exact (He i d Hn). }
+    destruct Hhv as (A & B). split; [exact A|].
+    destruct (d_txs d) eqn:Ht; [apply B; reflexivity|].
+    assert (Hne : d_txs (snd (sh, d)) <> []) by (cbn; rewrite Ht; discriminate).
+    destruct (Hdd i (sh, d) Hlt Hn Hne) as [Hap|Hdl].
+    - left; lia.
+    - destruct (Hlive _ Hdl) as (da & He). apply (He i sh Hn). cbn in Hne. exact Hne. }
+  rewrite Hh2. lia.
+Qed.
+
+(* completeness as C02 words it, with read faults: what counts as received is an event whose own height read
+   did not fail and that arrived while SyncLoop was running *)
+Theorem complete_f exec prov g k C h m :
+  ChainValidP exec prov g k C -> Forall (fitem_in C) h -> forallb fclean h = true ->
+  distinct_commitmentsb C = true -> (m <= length C)%nat ->
+  n_status (frun exec prov g h) = Running ->
+  (forall i b, (i < m)%nat -> nth_error C i = Some b -> delivered_live exec prov g [] h (EvHeader (fst b))) ->
+  (forall i b, (i < m)%nat -> nth_error C i = Some b -> d_txs (snd b) <> [] ->
+     delivered_live exec prov g [] h (EvData (snd b))) ->
+  g_initial g + N.of_nat m - 1 <= d_height (n_disk (frun exec prov g h)).
+Proof.
+  intros HV Hall Hcl HD Hm Hrun Hh Hd.
+  apply (progress_f exec prov g k C [] h m HV Hall Hcl HD Hm Hrun).
+  - intros i b Hlt Hn. right. exact (Hh i b Hlt Hn).
+  - intros i b Hlt Hn Hne. right. exact (Hd i b Hlt Hn Hne).
+Qed.
+
+Lemma Forall_firstn {A} (P : A -> Prop) n l : Forall P l -> Forall P (firstn n l).
+Proof. intros H. rewrite <- (firstn_skipn n l) in H. apply Forall_app in H. tauto. Qed.
+
+Lemma forallb_firstn {A} (f : A -> bool) n l : forallb f l = true -> forallb f (firstn n l) = true.
+Proof. intros H. rewrite <- (firstn_skipn n l), forallb_app in H. apply andb_true_iff in H. tauto. Qed.
+
+(* every event lost to a failed height read is delivered again: if no height read inside trySyncNextBlock
+   fails (SyncLoop never returns), a history that contains, for every block up to m, a header event and (if
+   the block is not empty) a data event whose own height read did not fail — whatever else it contains, lost
+   events of the same blocks included — brings the node to height >= initial + m - 1 *)
+Theorem complete_redelivery exec prov g k C h m :
+  ChainValidP exec prov g k C -> Forall (fitem_in C) h -> forallb fclean h = true ->
+  distinct_commitmentsb C = true -> (m <= length C)%nat ->
+  forallb (fun i => negb (halting i)) h = true ->
+  (forall i b, (i < m)%nat -> nth_error C i = Some b ->
+     exists da flt, In (FEv (EvHeader (fst b) da) flt) h /\ flt <> Some O) ->
+  (forall i b, (i < m)%nat -> nth_error C i = Some b -> d_txs (snd b) <> [] ->
+     exists da flt, In (FEv (EvData (snd b) da) flt) h /\ flt <> Some O) ->
+  g_initial g + N.of_nat m - 1 <= d_height (n_disk (frun exec prov g h)).
+Proof.
+  intros HV Hall Hcl HD Hm Hnh Hh Hd.
+  assert (Hrun : forall p, n_status (frun exec prov g (firstn p h)) = Running).
+  { intros p. destruct (recovery_f exec prov g k C (firstn p h) HV (Forall_firstn _ p h Hall)) as (_ & Hl & _).
+    apply Hl. apply live_no_halting; [reflexivity|]. apply forallb_firstn. exact Hnh. }
+  assert (Hlive : forall e da flt, In (FEv (e da) flt) h -> flt <> Some O -> delivered_live exec prov g [] h e).
+  { intros e da flt Hin Hne. apply In_nth_error in Hin as (p & Hp). exists p, da, flt.
+    split; [exact Hp|]. split; [exact Hne|]. cbn [app]. apply Hrun. }
+  apply (complete_f exec prov g k C h m HV Hall Hcl HD Hm).
+  - specialize (Hrun (length h)). rewrite firstn_all in Hrun. exact Hrun.
+  - intros i b Hlt Hn. destruct (Hh i b Hlt Hn) as (da & flt & Hin & Hne). exact (Hlive _ da flt Hin Hne).
+  - intros i b Hlt Hn Hne0. destruct (Hd i b Hlt Hn Hne0) as (da & flt & Hin & Hne). exact (Hlive _ da flt Hin Hne).
+Qed.
+
+(* ---- the default provider without read faults (C02 as first stated, C05, the composition theorems) ------ *)
 Theorem safety exec g k C h :
   ChainValid exec g k C -> Forall (item_in C) h -> forallb is_clean h = true ->
   n_status (run exec g h) = Running /\
   exists j, synced_to exec g C (run exec g h) j /\
             n_log (run exec g h) = calls_after exec (genesis_state g) C j.
 Proof.
-  intros HV Hall Hcl. destruct (init_good exec g k C HV) as (HG & Hl).
-  destruct (run_clean exec g k C HV h _ O HG Hall Hcl) as (j & _ & ((Hst & Hcore & _) & _) & Hlog & _).
-  split; [exact Hst|]. exists j. split; [apply (synced_core exec g C); exact Hcore|].
-  apply (Hlog []). rewrite Hl. destruct C; reflexivity.
+  intros HV Hall Hcl. apply ChainValid_P0 in HV. apply item_in_lift in Hall. rewrite <- clean_lift in Hcl.
+  destruct (safety_f exec 0 g k C (map lift h) HV Hall Hcl) as (_ & Hl & Hj).
+  rewrite frun_lift in *. split; [apply Hl; apply live_lift; reflexivity|exact Hj].
 Qed.
 
 (* the applied prefix never shrinks — for every history, crashes included *)
@@ -1037,23 +1342,18 @@ Theorem monotone exec g k C h1 h2 :
   ChainValid exec g k C -> Forall (item_in C) (h1 ++ h2) ->
   exists j1 j2, (j1 <= j2)%nat /\ synced_to exec g C (run exec g h1) j1 /\ synced_to exec g C (run exec g (h1 ++ h2)) j2.
 Proof.
-  intros HV Hall. apply Forall_app in Hall as (Ha1 & Ha2).
-  destruct (init_good exec g k C HV) as (HG & _).
-  destruct (run_good exec g k C HV h1 _ O HG Ha1) as (j1 & _ & HG1).
-  destruct (run_good exec g k C HV h2 _ j1 HG1 Ha2) as (j2 & Hle & HG2).
-  exists j1, j2. split; [exact Hle|].
-  unfold run, run_from in *. rewrite fold_left_app.
-  destruct HG1 as ((_ & Hk1 & _) & _). destruct HG2 as ((_ & Hk2 & _) & _).
-  split; apply (synced_core exec g C); assumption.
+  intros HV Hall. apply ChainValid_P0 in HV. apply item_in_lift in Hall. rewrite map_app in Hall.
+  destruct (monotone_f exec 0 g k C _ _ HV Hall) as (j1 & j2 & H). rewrite <- map_app, !frun_lift in H.
+  exists j1, j2. exact H.
 Qed.
 
 (* ---- C05: recovery, all chains, all histories with crashes anywhere -------------------------------- *)
 Theorem recovery exec g k C h :
   ChainValid exec g k C -> Forall (item_in C) h -> recovered exec g C (run exec g h).
 Proof.
-  intros HV Hall. destruct (init_good exec g k C HV) as (HG & _).
-  destruct (run_good exec g k C HV h _ O HG Hall) as (j & _ & ((Hst & Hcore & _) & _)).
-  split; [exact Hst|]. exists j. apply (synced_core exec g C). exact Hcore.
+  intros HV Hall. apply ChainValid_P0 in HV. apply item_in_lift in Hall.
+  destruct (recovery_f exec 0 g k C _ HV Hall) as (_ & Hl & Hj). rewrite frun_lift in *.
+  split; [apply Hl; apply live_lift; reflexivity|exact Hj].
 Qed.
 
 (* ---- completeness / progress after any past (C02 with h1 = [], C05 with crashes in h1) ------------ *)
@@ -1066,33 +1366,21 @@ Theorem progress exec g k C h1 h2 m :
      g_initial g + N.of_nat i <= d_height (n_disk (run exec g h1)) \/ data_delivered h2 b) ->
   g_initial g + N.of_nat m - 1 <= d_height (n_disk (run exec g (h1 ++ h2))).
 Proof.
-  intros HV Hall Hcl HDb Hm Hhd Hdd. apply Forall_app in Hall as (Ha1 & Ha2).
-  pose proof (distinctb_Distinct C HDb) as HD.
-  destruct (init_good exec g k C HV) as (HG & _).
-  destruct (run_good exec g k C HV h1 _ O HG Ha1) as (j1 & _ & HG1).
-  destruct (run_clean exec g k C HV h2 _ j1 HG1 Ha2 Hcl) as (j2 & Hle & HG2 & _ & _ & Heff).
-  unfold run, run_from in *. rewrite fold_left_app.
-  set (nd1 := fold_left (step exec g) h1 (init exec g)) in *.
-  set (nd2 := fold_left (step exec g) h2 nd1) in *.
-  assert (Hh1 : d_height (n_disk nd1) = g_initial g + N.of_nat j1 - 1).
-  { destruct HG1 as ((_ & (_ & Hh & _) & _) & _). exact Hh. }
-  assert (Hh2 : d_height (n_disk nd2) = g_initial g + N.of_nat j2 - 1).
-  { destruct HG2 as ((_ & (_ & Hh & _) & _) & _). exact Hh. }
-  pose proof (init_pos exec g k C HV) as Hi.
-  assert (Hmj : (m <= j2)%nat).
-  { apply (progress_end exec g k C HV nd2 j2 m HG2 Hm).
-    intros i sh d Hlt Hn.
-    assert (Hhv : hv_h g (n_cache nd2) j2 i sh /\ (d_txs d = [] -> hv_d g (n_cache nd2) j2 i d)).
-    { destruct (Hhd i (sh, d) Hlt Hn) as [Hap|(da & Hin)].
-      - split; [left; lia|intros _; left; lia].
-      - exact (Heff HD _ Hin i d Hn). }
-    destruct Hhv as (A & B). split; [exact A|].
-    destruct (d_txs d) eqn:Ht; [apply B; reflexivity|].
-    assert (Hne : d_txs (snd (sh, d)) <> []) by (cbn; rewrite Ht; discriminate).
-    destruct (Hdd i (sh, d) Hlt Hn Hne) as [Hap|(da & Hin)].
-    - left; lia.
-    - apply (Heff HD _ Hin i sh Hn). cbn in Hne. exact Hne. }
-  rewrite Hh2. lia.
+  intros HV Hall Hcl HDb Hm Hhd Hdd.
+  assert (Hrun : forall h, Forall (item_in C) h -> n_status (run exec g h) = Running).
+  { intros h Hh. destruct (recovery exec g k C h HV Hh) as (Hr & _). exact Hr. }
+  assert (Hlive : forall e da, In (IEv (e da)) h2 -> delivered_live exec 0 g (map lift h1) (map lift h2) e).
+  { intros e da Hin. apply In_nth_error in Hin as (p & Hp). exists p, da, None.
+    split; [rewrite nth_error_map, Hp; reflexivity|]. split; [discriminate|].
+    rewrite <- firstn_map, <- map_app, frun_lift. apply Hrun.
+    apply Forall_app in Hall as (A1 & A2). apply Forall_app. split; [exact A1|apply Forall_firstn; exact A2]. }
+  pose proof (Hrun _ Hall) as Hr.
+  pose proof HV as HV0. apply ChainValid_P0 in HV0.
+  pose proof (item_in_lift _ _ Hall) as Hall'. rewrite map_app in Hall'. rewrite <- clean_lift in Hcl.
+  pose proof (progress_f exec 0 g k C (map lift h1) (map lift h2) m HV0 Hall' Hcl HDb Hm) as P.
+  rewrite <- map_app, !frun_lift in P. apply P; [exact Hr| |].
+  - intros i b Hlt Hn. destruct (Hhd i b Hlt Hn) as [A|(da & Hin)]; [left; exact A|right; exact (Hlive _ da Hin)].
+  - intros i b Hlt Hn Hne. destruct (Hdd i b Hlt Hn Hne) as [A|(da & Hin)]; [left; exact A|right; exact (Hlive _ da Hin)].
 Qed.
 
 (* completeness as C02 words it, under the guard *)
